@@ -104,6 +104,11 @@ type Manager struct {
 	nextPollTime   time.Time
 	pollTimer      *time.Timer
 
+	// wakeGen counts completed Wake calls (guarded by stateMu). A poll that
+	// observes a different value at its end than at its start was interrupted
+	// by a wake and must not finish, even if the agent went back to sleep.
+	wakeGen uint64
+
 	// Deterministic windows
 	localID    identity.AgentID
 	windowCalc *WindowCalculator
@@ -320,6 +325,7 @@ func (m *Manager) Wake() error {
 
 	// Update state
 	m.state.Store(StateAwake)
+	m.wakeGen++
 	sleepDuration := time.Since(m.sleepStartTime)
 	m.sleepStartTime = time.Time{}
 	m.nextPollTime = time.Time{}
@@ -357,6 +363,7 @@ func (m *Manager) Poll() error {
 	// Transition to polling
 	m.state.Store(StatePolling)
 	m.lastPollTime = time.Now()
+	wakeGen := m.wakeGen
 	m.stateMu.Unlock()
 	verifhook.At("sleep.poll.unlocked", m)
 
@@ -380,8 +387,11 @@ func (m *Manager) Poll() error {
 	m.stateMu.Lock()
 	defer m.stateMu.Unlock()
 
-	// Check if we were woken during poll
-	if m.state.Load().(State) == StateAwake {
+	// Check if we were woken during poll. Comparing the wake generation (and
+	// not only the state) also covers a wake that was followed by a new Sleep:
+	// this poll belongs to the previous sleep period and must not disconnect,
+	// re-sleep or re-arm the timer of the new one.
+	if m.state.Load().(State) == StateAwake || m.wakeGen != wakeGen {
 		return nil
 	}
 
